@@ -154,7 +154,8 @@ theorem decode_exact_csi_noparams (u : Uni) (fin key : Int)
 
 /-- `CSI Z` is Shift+Tab. -/
 theorem decode_exact_shift_tab (u : Uni) :
-    decodeKey u (.csi [] 90) = shiftFix u { keycode := KeyTab, mods := shiftBit } := rfl
+    decodeKey u (.csi [] 90) = shiftFix u { keycode := KeyTab, mods := shiftBit } := by
+  rw [decodeKey_eq]; rfl
 
 /-- xterm's `CSI 27 ; m ; code ~` (modifyOtherKeys) is `code` with modifiers `m - 1`. -/
 theorem decode_exact_modify_other_keys (u : Uni) (m : Nat) (code : Int) (hc : inRune code) :
